@@ -40,6 +40,10 @@ def cases(tier, seed):
             for i in range(n):
                 out.append({"name": "throttle.model/count=%s/block=%d/%d" % (c, block, i), "kind": "model", "count": c,
                             "block": block, "idx": i, "steps": 14 if tier == "quick" else 30})
+    for c in (1, 2):
+        for nq in (3, 4, 6):
+            for ci in range(nq):
+                out.append({"name": "throttle.fifo/count=%d/queued=%d/cancel=%d" % (c, nq, ci), "kind": "fifo", "count": c, "nq": nq, "ci": ci})
     cap = 16 if tier == "quick" else None
     for c in (1, 2):
         for block in (False, True):
@@ -336,8 +340,8 @@ class TScenario(object):
         ctx = Ctx()
         w = TWorld(ctx, self.case["count"], False if self.case["trigger"] == "x" else self.case["block"])
         ctx.w = w
-        # fill: count in flight + 1 queued
-        n = self.case["count"] + 1
+        # fill: count in flight + 1 queued (blocking mode: a full queue of count entries)
+        n = self.case["count"] * 2 if self.case["block"] else self.case["count"] + 1
         for i in range(n):
             s = w.new_sub()
             w.do_submit(s)
@@ -369,6 +373,21 @@ class TScenario(object):
         elif what == "timer":
             from .c04 import fire_next_timer
             fire_next_timer()
+        elif what == "complete+submit":
+            # capacity is freed and handed over, then another submitter comes in
+            for k in list(ctx.w.inflight_items()):
+                ctx.w.me.complete(k, 1)
+            me = ctx.actors[-1] if ctx.actors else None
+            try:
+                if me is not None:
+                    me.external = True
+                instr.settle(2.0)
+            except Inconclusive:
+                pass
+            finally:
+                if me is not None:
+                    me.external = False
+            self.produce(ctx, "submit")
 
     def start_victim(self, ctx):
         role = "T" if self.case["victim"] == "worker" else "V"
@@ -442,14 +461,51 @@ def run_sweep(case, res):
     seconds = ["submit", "complete", "cancel_queued", "cancel_inflight"]
     if case["victim"] == "client":
         seconds.append("timer")
+        if case["block"] and case["trigger"] == "submit":
+            seconds.append("complete+submit")
     for second in seconds:
         sw = Sweep(TScenario(case, second), res, "vt", case["name"])
-        sw.run(case["cap"], rng, per_site=2)
+        # the two-submitter race needs a placement between clear/check and wait: sweep it completely
+        sw.run(None if second == "complete+submit" else case["cap"], rng, per_site=2)
         if harness.need_recycle():
             return
 
 
+def run_fifo(case, res):
+    """count in flight, nq queued; cancel the ci-th queued one; complete everything one by one."""
+    begin("vt")
+    ctx = Ctx()
+    try:
+        w = TWorld(ctx, case["count"], False)
+        n = case["count"] + case["nq"]
+        for i in range(n):
+            w.do_submit(w.new_sub())
+        instr.advance(D)
+        q = w.queued()
+        victim = q[case["ci"]]
+        call("cancel", victim["fut"].cancel, _tag=victim["id"])
+        instr.advance(D)
+        for _ in range(n + 2):
+            p = w.inflight_items()
+            if not p:
+                break
+            w.me.complete(p[0], 1)
+            instr.advance(D)
+            w.check_quiescent(res, case["name"])
+        res.execs += 1
+        check_common(res)
+        w.check_arrivals(res, case["name"])
+        want = [i for i in range(n) if i != victim["id"]]
+        if w.handed() != want:
+            res.violation("fifo", "%s: hand-over order %s, expected %s (queued job %d was cancelled)" % (case["name"], w.handed(), want, victim["id"]))
+        res.key("fifo", case["count"], case["nq"], case["ci"])
+    finally:
+        end(ctx)
+
+
 def run_case(case, res):
+    if case["kind"] == "fifo":
+        return run_fifo(case, res)
     if case["kind"] == "model":
         run_model(case, res)
     else:
